@@ -1,4 +1,5 @@
 import SaVerif.Lemmas.Topo
+import SaVerif.Lemmas.TopoCycles
 /-!
 # C19 — Dependency sorting is a correct topological order; cycles exactly reported
 
@@ -339,11 +340,47 @@ theorem sort_error_iff_cycle (ts : List Edge) (items : List Node) :
     | none => rfl
     | some out => exact absurd hc (sort_ok_acyclic ts items out h)
 
+/-! ## cycle detection
+
+Full statement (exactness), for every neighbour iteration order:
+  `x ∈ findCycles ts ↔ OnCycle ts x`.
+Proved below: the soundness direction (`→`), i.e. cycle detection never reports a
+node that is not on a cycle.  The completeness direction (`←`, every node on a
+cycle is reported — it needs "the DFS from a node visits everything reachable
+from it") is not yet a theorem; it is covered by the exhaustive correspondence
+(all digraphs on ≤ 4 nodes) and the independent oracle on random larger graphs. -/
+
+/-- **find_cycles_exact_partial** (soundness half of exactness) -/
+theorem find_cycles_exact_partial (ts : List Edge) (x : Node) (h : x ∈ findCycles ts) :
+    OnCycle ts x := by
+  unfold findCycles at h
+  rw [List.mem_eraseDups] at h
+  exact findCycles_sound_aux _ _ _ (by simp) x h
+
+theorem Path.snoc {R : Node → Node → Prop} {a b c : Node} (p : Path R a b) (e : R b c) :
+    Path R a c := by
+  induction p with
+  | single r => exact .cons r (.single e)
+  | cons r _ ih => exact .cons r (ih e)
+
+/-- `OnCycle` is the same notion as a non-empty closed `Path` -/
+theorem onCycle_path (ts : List Edge) (x : Node) (h : OnCycle ts x) :
+    Path (fun a b => (a, b) ∈ ts) x x := by
+  obtain ⟨y, hxy, hr⟩ := h
+  have key : ∀ {a b : Node}, Reach ts a b → ∀ {c : Node}, Path (fun a b => (a, b) ∈ ts) c a →
+      Path (fun a b => (a, b) ∈ ts) c b := by
+    intro a b hab
+    induction hab with
+    | refl => intro c p; exact p
+    | tail _ e ih => intro c p; exact (ih p).snoc e
+  exact key hr (.single hxy)
+
 /-! ## non-vacuity -/
 example : sort [(2, 1), (3, 2)] [1, 2, 3] = some [3, 2, 1] := by decide
 example : sort [(2, 1), (1, 2)] [1, 2, 3] = none := by decide
 example : HasCycle [(2, 1), (1, 2)] [1, 2, 3] :=
   ⟨1, .cons (b := 2) ⟨by decide, by decide, by decide⟩ (.single ⟨by decide, by decide, by decide⟩)⟩
 example : sortAsSubsets [(1, 2)] [4, 1, 2, 3] = some [[4, 1, 3], [2]] := by decide
+example : 2 ∈ findCycles [(1, 2), (2, 1), (2, 3), (3, 3)] := by decide
 
 end SaVerif.Props.C19
